@@ -407,3 +407,49 @@ Proof.
     constructor; [right; apply P; cbn; auto|constructor].
   - intros r. cbn. intuition.
 Qed.
+
+(* a refresh plan ex_v0 -> ex_v1 -> ex_v2 in two refreshes, and what the model computes for it *)
+Lemma ex_wf : forall v, In v [ex_v0; ex_v1; ex_v2] -> version_wf v.
+Proof.
+  intros v [<-|[<-|[<-|[]]]]; (split; [cbv; split; discriminate|]); split;
+    repeat constructor; cbv; intuition (try discriminate; try lia).
+Qed.
+
+Definition ex_msgs (l : list rr) : list wmsg := map (fun r => mkW 0 [] [r]) l.
+
+Lemma ex_chunking : forall l, l <> [] -> chunking tIXFR l (ex_msgs l).
+Proof.
+  intros l Hl. split; [|split].
+  - unfold ex_msgs. apply Forall_forall. intros w Hw. apply in_map_iff in Hw. destruct Hw as [r [<- _]].
+    split; [reflexivity|left; reflexivity].
+  - unfold ex_msgs. induction l as [|r l IH]; [reflexivity|]. cbn. f_equal.
+    destruct l; [reflexivity|]. apply IH. discriminate.
+  - destruct l; [congruence|]. cbn. discriminate.
+Qed.
+
+Example ex_refresh_plan :
+  XfrRefresh.refresh_plan ex_v0
+    [ [(Some (v_serial ex_v0), ex_msgs (ixfr_stream ex_v0 [ex_v1]))];
+      [(Some (v_serial ex_v0), []); (Some (v_serial ex_v1), ex_msgs (ixfr_stream ex_v1 [ex_v2]))] ]
+    ex_v2.
+Proof.
+  assert (C01 : chain_ok ex_v0 [ex_v1]).
+  { split; [discriminate|]. split; [apply ex_wf; cbn; auto|].
+    split; [constructor; [apply ex_wf; cbn; auto|constructor]|]. split; [|reflexivity].
+    intros v [<-|[]]; cbv; discriminate. }
+  assert (C12 : chain_ok ex_v1 [ex_v2]).
+  { split; [discriminate|]. split; [apply ex_wf; cbn; auto|].
+    split; [constructor; [apply ex_wf; cbn; auto|constructor]|]. split; [|reflexivity].
+    intros v [<-|[]]; cbv; discriminate. }
+  eapply XfrRefresh.rp_cons with (chain := [ex_v1]) (recs := ixfr_stream ex_v0 [ex_v1]).
+  - exact C01.
+  - reflexivity.
+  - eexists. split; [apply XfrOrder.ixfr_seqs_canonical|reflexivity].
+  - apply ex_chunking. discriminate.
+  - eapply XfrRefresh.rp_cons with (chain := [ex_v2]) (recs := ixfr_stream ex_v1 [ex_v2]).
+    + exact C12.
+    + reflexivity.
+    + eexists. split; [apply XfrOrder.ixfr_seqs_canonical|reflexivity].
+    + apply ex_chunking. discriminate.
+    + apply XfrRefresh.rp_nil.
+Qed.
